@@ -230,6 +230,7 @@ DEFAULT_PROFILE: Dict[str, Any] = {
     "n_vehicles": (2, 12),
     "p_ice": 0.25,
     "p_human": 0.2,
+    "p_home_station": 0.6,
     "soc": [0.02, 0.05, 0.1, 0.15, 0.3, 0.6, 0.9, 1.0],
     "n_stations": (1, 4),
     "plug_counts": [1, 1, 2, 3],
@@ -407,7 +408,7 @@ def random_spec(seed: int, profile: Optional[Dict[str, Any]] = None) -> Dict[str
             hb = {"id": f"hb{i}", "stalls": 1}
             hp = geo.fresh()
             hb["lat"], hb["lon"] = hp
-            if rnd.random() < 0.6:
+            if rnd.random() < P["p_home_station"]:
                 hb["station"] = f"hbs{i}"
                 stations.append({"id": f"hbs{i}", "lat": hp[0], "lon": hp[1], "plugs": [{"charger": rnd.choice(gas) if is_ice else "LEVEL_2", "count": 1, "on_shift": False}]})
             else:
